@@ -1,27 +1,29 @@
 import Cutadapt.Basic
 /-! Model of the output-format decision: what `OutputFiles.open_record_writer` / `open_stdout_record_writer`
-    (`src/cutadapt/files.py`) pass to dnaio, composed with dnaio's own fallback ("qualities ⇒ FASTQ, else FASTA",
-    library parameter). Core Lean only. -/
+    (`src/cutadapt/files.py`, with `fileformat_from_path`) pass to dnaio, composed with dnaio's own fallback
+    ("qualities ⇒ FASTQ, else FASTA", library parameter); and of interleaving. Core Lean only. -/
 namespace Cutadapt.Files
 
 inductive Fmt where
   | fasta | fastq
 deriving Repr, BEq, DecidableEq, Inhabited
 
-def compressionSuffixes : List String := [".gz", ".xz", ".bz2", ".zst"]
+def compressionSuffixes : List (List Char) := [".gz".toList, ".xz".toList, ".bz2".toList, ".zst".toList]
 
-/-- strip one compression suffix (the first of `.gz .xz .bz2 .zst` that matches), lower-cased name -/
-def stripCompression (name : String) : String :=
-  match compressionSuffixes.find? (fun e => name.endsWith e) with
-  | some e => (name.dropRight e.length)
+/-- strip one compression suffix (the first of `.gz .xz .bz2 .zst` that matches) -/
+def stripCompression (name : List Char) : List Char :=
+  match compressionSuffixes.find? (fun e => e.isSuffixOf name) with
+  | some e => name.take (name.length - e.length)
   | none => name
 
-/-- `fileformat_from_path` -/
-def formatFromPath (path : String) : Option Fmt :=
-  let name := stripCompression path.toLower
-  if name.endsWith ".fasta" || name.endsWith ".fa" || name.endsWith ".fna" then some .fasta
-  else if name.endsWith ".fastq" || name.endsWith ".fq" then some .fastq
+/-- `fileformat_from_path` on the lower-cased characters of the path -/
+def formatFromChars (path : List Char) : Option Fmt :=
+  let name := stripCompression path
+  if ".fasta".toList.isSuffixOf name || ".fa".toList.isSuffixOf name || ".fna".toList.isSuffixOf name then some .fasta
+  else if ".fastq".toList.isSuffixOf name || ".fq".toList.isSuffixOf name then some .fastq
   else none
+
+def formatFromPath (path : String) : Option Fmt := formatFromChars path.toLower.toList
 
 /-- format of a record file opened for `path` (`"-"` = standard output); `forceFasta` = `--fasta`;
     `inputHasQualities` = the input format has qualities; `proxied` = more than one core -/
@@ -30,5 +32,16 @@ def outputFormat (path : String) (forceFasta inputHasQualities _proxied : Bool) 
   else match formatFromPath path with
     | some f => f
     | none => if inputHasQualities then .fastq else .fasta
+
+/-- reading an interleaved file: consecutive records form pairs (`none` = odd number of records: dnaio raises) -/
+def deinterleave : List α → Option (List (α × α))
+  | [] => some []
+  | [_] => none
+  | a :: b :: rest => (deinterleave rest).map ((a, b) :: ·)
+
+/-- writing interleaved: R1 and R2 of each pair consecutively -/
+def interleave : List (α × α) → List α
+  | [] => []
+  | (a, b) :: rest => a :: b :: interleave rest
 
 end Cutadapt.Files
